@@ -263,7 +263,25 @@ def _groupsnap(ctx):
             by_id.append(str(g[i].id))
         except Exception as e:  # noqa: BLE001
             by_id.append("!" + type(e).__name__)
-    return ("snap", ids, n, by_index, member, by_id, bool("no-such-id" in g))
+    # object level: membership and lookup of every gateway object this run ever created (also exited ones, whose
+    # id may meanwhile belong to another member) must agree with identity in the iteration
+    live = list(g)
+    objbad = []
+    for gw in ctx.gws:
+        is_member = any(m is gw for m in live)
+        try:
+            said = bool(gw in g)
+        except Exception as e:  # noqa: BLE001
+            said = "!" + type(e).__name__
+        if said != is_member:
+            objbad.append((str(gw.id), said, is_member))
+        elif is_member:
+            try:
+                if g[gw] is not gw:
+                    objbad.append((str(gw.id), "lookup-other", True))
+            except Exception as e:  # noqa: BLE001
+                objbad.append((str(gw.id), "!" + type(e).__name__, True))
+    return ("snap", ids, n, by_index, member, by_id, bool("no-such-id" in g), objbad)
 
 
 class NoChannel(LookupError):
@@ -368,6 +386,14 @@ def do_op(ctx, aid, oi, table, op):
         to = op[2] if len(op) > 2 else None
         _ch(table, op[1]).waitclose(to) if to is not None else _ch(table, op[1]).waitclose()
         return ("ok",)
+    if k == "poll_closed":
+        # ["poll_closed", ch, tries]: wait (in simulated time) until isclosed() is true, without consuming anything
+        ch = _ch(table, op[1])
+        for _ in range(op[2]):
+            if ch.isclosed():
+                return ("val", True)
+            s.sleep(0.05)
+        return ("val", False)
     if k == "poll_remote":
         # ["poll_remote", ch, tries]: wait (in simulated time) until waitclose raises something
         ch = _ch(table, op[1])
@@ -497,6 +523,8 @@ def do_op(ctx, aid, oi, table, op):
         except KeyError:
             return ("nogw",)
         gw.exit()
+        if op[-1] == "twice":
+            gw.exit()  # documented as harmless
         return ("ok",)
     if k == "groupsnap":
         # one consistent look at the container protocol (no sync point and no line preemption inside)
